@@ -119,7 +119,16 @@ struct Out {
   }
   void count(const std::string &k, long long n = 1) { dist[k] += n; }
   // record a case as non-trivial by the property's rule, keyed by a canonical hash
-  void nontrivial(uint64_t h) { distinctNontrivial.insert(h); }
+  // Within beginCase()/endCase() several nontrivial() marks of one case are folded into a single
+  // entry, so that distinct_nontrivial counts cases (it can never exceed evaluations).
+  bool inCase = false, caseNt = false;
+  uint64_t caseHash = 0;
+  void beginCase() { inCase = true; caseNt = false; caseHash = 0; }
+  void endCase() { if (inCase && caseNt) distinctNontrivial.insert(caseHash); inCase = false; }
+  void nontrivial(uint64_t h) {
+    if (inCase) { caseNt = true; caseHash = caseHash * 1099511628211ull ^ h; }
+    else distinctNontrivial.insert(h);
+  }
   void sample(const std::string &s) { if (samples.size() < 6) samples.push_back(s); }
   // A failure classified as a known finding (kf non-empty) is written at most 50 times per
   // finding (all are counted in the distribution); an unclassified failure is never dropped
